@@ -116,6 +116,29 @@ CHECKS["C03"] = dict(
     note=COMMON_NOTE + " Accuracy of solve_ivp / simpson and the momentum-flux condition at the front (a consequence, not coded) are not decided.",
 )
 
+CHECKS["C05"] = dict(
+    level="other",
+    technique="static analysis: ast -> sympy term extraction + CAS identities for the entropy relation; guard/sentinel table and flag typestate "
+              "on the CFG of findvwLTE; callee-identity rules",
+    text="The v+^2 imposed inside the 2x2 matching and the v+ computed after it are proved equivalent to T+ gamma+ = T- gamma- with "
+         "v-^2 = min(vw^2, cs-^2), for every equation of state; the LTE root function is exactly entropy-branch matching -> shock "
+         "integration -> Tn mismatch; the sentinel table is read off the guards (1 iff mismatch positive at the top of the window or the "
+         "matching failed, 0 iff negative at the bottom, else the bracketed root) with the success flag reset before and read after the "
+         "evaluation; manager and wall solver use this same routine; the template solver's own sentinels and shooting function are checked.",
+    note=COMMON_NOTE + " That the mismatch keeps one sign over the whole window is not decided.",
+)
+CHECKS["C06"] = dict(
+    level="other",
+    technique="static analysis: ast -> sympy term extraction + CAS identities (Jouguet condition = derivative of v+^2; template vJ is the "
+              "Chapman-Jouguet point), branch/guard structure rules, bracket provenance",
+    text="vpDerivNum is proved to be N'D - ND' of v+^2 = N/D with the coded derivative pairing, and the returned vJ is v+ at that point; "
+         "substituting the template's closed-form vJ into its detonation branch gives zero discriminant and v- = cb; both classes switch to "
+         "the detonation branch exactly at vw > vJ, as does the labelling in the wall solver; v- = min(...) rules at every site; the "
+         "detonation root is bracketed on the weak side by the minimiser of the same residual; fastestDeflag / slowestDeton / vMin "
+         "bookkeeping (min of the two range-limited roots, flags per phase, window handed to the wall solver).",
+    note=COMMON_NOTE + " Numerical inequalities between returned speeds and temperatures are not decided.",
+)
+
 NOT_APPLICABLE = {}
 
 ENGINES = [
